@@ -2,6 +2,7 @@
 From Coq Require Import List NArith Arith.
 Import ListNotations.
 Require Import Cycle Simple StatePath Bfs.
+Require GraphEdges Gen_GraphEdges GenProofs_GraphEdges.
 
 (* (1) Every undetectable edge multiset (even degree at every detector node; the boundary B absorbs; self-loops count 0) with
        non-zero total observable mask contains a closed walk with non-zero mask using each edge at most once, closed at B or
@@ -38,3 +39,13 @@ Theorem C17_bfs_nearest :
 Proof. exact bfs_nearest. Qed.
 Print Assumptions C17_cycle_lemma. Print Assumptions C17_simple_exists. Print Assumptions C17_graphlike_lower_bound.
 Print Assumptions C17_bfs_nearest.
+
+(* Graph construction of the graphlike search, regenerated from source: the detectors of one error component are collected by
+   cancelling a repeated detector against its earlier occurrence and testing the two-detector capacity only afterwards; the
+   detectors held at the end are exactly those listed an odd number of times, each once (any order, any number of repetitions). *)
+Theorem C17_graphlike_collection_is_the_model : GenProofs_GraphEdges.graph_collect_ok = true.
+Proof. exact GenProofs_GraphEdges.graphlike_collection_is_the_model. Qed.
+Theorem C17_collected_detectors_are_the_symptom :
+  forall ts, NoDup (GraphEdges.collect ts) /\ forall d, In d (GraphEdges.collect ts) <-> GraphEdges.odd_in ts d = true.
+Proof. exact GraphEdges.collect_is_symptom. Qed.
+Print Assumptions C17_graphlike_collection_is_the_model. Print Assumptions C17_collected_detectors_are_the_symptom.
